@@ -30,6 +30,7 @@ def check(ctx, sc, uni, collect_only=False):
     ctx.count("shallow=%s" % sc["shallow"])
     ctx.count("failing_uploads=%d" % min(len(sc["fail"]), 4))
     ctx.count("vanishing_source=%d" % len(sc.get("vanish", [])))
+    ctx.count("req_form=%s" % sc.get("req_form", "set"))
     ctx.count("stores=%s->%s" % ("local" if sc["src_local"] else "generic", "local" if sc["dest_local"] else "generic"))
     # correspondence (round 1 from the scenario, round 2 from the state the implementation reached)
     reqs = [xfer.model_req(sc, uni, run.dest_before, run.index_before, obs1["dir_order"]),
